@@ -92,10 +92,29 @@ fn is(w: &Buf<16>, s: &str) -> bool {
     true
 }
 
+// Formatting a `Value` goes through value-bag's Display/Debug visitor, whose arms for the primitive variants call
+// core's number formatting (float formatting does not finish under CBMC). The value formatted here is a custom
+// Display/Debug type, so those arms are dead: they are replaced by assert-unreachable stubs.
+pub fn f64_fmt_unreachable(_v: &f64, _f: &mut fmt::Formatter<'_>) -> fmt::Result { panic!("float formatting reached for a non-float value") }
+pub fn i64_fmt_unreachable(_v: &i64, _f: &mut fmt::Formatter<'_>) -> fmt::Result { panic!("integer formatting reached for a non-integer value") }
+pub fn u64_fmt_unreachable(_v: &u64, _f: &mut fmt::Formatter<'_>) -> fmt::Result { panic!("integer formatting reached for a non-integer value") }
+pub fn i128_fmt_unreachable(_v: &i128, _f: &mut fmt::Formatter<'_>) -> fmt::Result { panic!("integer formatting reached for a non-integer value") }
+pub fn u128_fmt_unreachable(_v: &u128, _f: &mut fmt::Formatter<'_>) -> fmt::Result { panic!("integer formatting reached for a non-integer value") }
+
 /// default / display / debug capture of a non-primitive: exactly the corresponding formatting
 #[kani::proof]
 #[kani::unwind(8)]
-pub fn c19_q_capture_display_debug_modes() {
+#[kani::stub(<f64 as core::fmt::Display>::fmt, f64_fmt_unreachable)]
+#[kani::stub(<f64 as core::fmt::Debug>::fmt, f64_fmt_unreachable)]
+#[kani::stub(<i64 as core::fmt::Display>::fmt, i64_fmt_unreachable)]
+#[kani::stub(<i64 as core::fmt::Debug>::fmt, i64_fmt_unreachable)]
+#[kani::stub(<u64 as core::fmt::Display>::fmt, u64_fmt_unreachable)]
+#[kani::stub(<u64 as core::fmt::Debug>::fmt, u64_fmt_unreachable)]
+#[kani::stub(<i128 as core::fmt::Display>::fmt, i128_fmt_unreachable)]
+#[kani::stub(<i128 as core::fmt::Debug>::fmt, i128_fmt_unreachable)]
+#[kani::stub(<u128 as core::fmt::Display>::fmt, u128_fmt_unreachable)]
+#[kani::stub(<u128 as core::fmt::Debug>::fmt, u128_fmt_unreachable)]
+pub fn c19_t_capture_display_debug_modes() {
     let x: u8 = kani::any();
     let v = Shown(x);
     let p = emit::props! { v, #[emit::as_display] d: v, #[emit::as_debug] g: v };
